@@ -43,6 +43,11 @@ Local Open Scope nat_scope.
                                   binary64, ALL data (NaN, infinities, signed zeros, overflow): with one worker and with
                                   more workers than elements (every t > len -- worker counts no machine here offers)
                                   the threaded product, and every interleaved execution, is bit-identical to dot
+     pardot_forward_error, dot_forward_error, pardot_vs_dot_reassociation, sched_forward_error
+                                  ARBITRARY data, standard model of floating-point arithmetic (relative error <= u per
+                                  + and *, no under/overflow): |fl(pardot) - exact| <= ((1+u)^(len+t+1) - 1) sum|v_i w_i|,
+                                  the sequential dot with exponent len+1, hence the two agree "up to reassociation";
+                                  so does every interleaved execution.  (Round one: searched only.)
      sched_exact, sched_exact_float   over a ring / on exactly summable binary64 data every maximal execution returns
                                   the sequential dot (bit for bit).
    --------------------------------------------------------------------------------------------------------------- *)
@@ -317,4 +322,94 @@ Check sched_few_elements_float : forall (v w : list AF) t s0 n s, t = 1 \/ lengt
   par_program (A := AF) v w t = Ok s0 -> steps v w t n s0 s -> terminal v w t s ->
   main s = MRet (dot (A := AF) v w).
 Print Assumptions sched_few_elements_float.
+Print Assumptions audit_separator.
+
+(* ---- arbitrary data: equal "up to reassociation", standard model of floating-point arithmetic ---- *)
+From Coq Require Import Reals.
+From OV Require Import Proofs.VectorR Proofs.TridiagRound Proofs.ParSchedAccuracy.
+
+Theorem pardot_forward_error : forall (u : R), (0 <= u <= 1)%R -> forall fadd fsub fmul fdiv : R -> R -> R,
+  (forall x y : R, exists d : R, (Rabs d <= u)%R /\ fadd x y = ((x + y) * (1 + d))%R) ->
+  (forall x y : R, exists d : R, (Rabs d <= u)%R /\ fmul x y = (x * y * (1 + d))%R) ->
+  forall (t : nat) (v w : list R), 1 <= t -> length v = length w ->
+  exists r : R, pardot (A := ARnd fadd fsub fmul fdiv) t v w = Ok r /\
+    (Rabs (r - dot_raw (A := AR) v w)
+     <= ((1 + u) ^ (length v + t + 1) - 1) * dot_raw (A := AR) (map Rabs v) (map Rabs w))%R.
+Proof. intros u Hu fadd fsub fmul fdiv Hadd Hmul t v w Ht Hl. exact (pardot_forward_error_ex u Hu fadd fsub fmul fdiv Hadd Hmul t v w Ht Hl). Qed.
+Check pardot_forward_error : forall (u : R), (0 <= u <= 1)%R -> forall fadd fsub fmul fdiv : R -> R -> R,
+  (forall x y : R, exists d : R, (Rabs d <= u)%R /\ fadd x y = ((x + y) * (1 + d))%R) ->
+  (forall x y : R, exists d : R, (Rabs d <= u)%R /\ fmul x y = (x * y * (1 + d))%R) ->
+  forall (t : nat) (v w : list R), 1 <= t -> length v = length w ->
+  exists r : R, pardot (A := ARnd fadd fsub fmul fdiv) t v w = Ok r /\
+    (Rabs (r - dot_raw (A := AR) v w)
+     <= ((1 + u) ^ (length v + t + 1) - 1) * dot_raw (A := AR) (map Rabs v) (map Rabs w))%R.
+Print Assumptions pardot_forward_error.
+Print Assumptions audit_separator.
+
+(* non-vacuity: an inexact arithmetic in the model (every sum and product 25% too large, u = 1/2) *)
+Example pardot_forward_error_nonvacuous :
+  (0 <= / 2 <= 1)%R /\
+  (forall x y : R, exists d : R, (Rabs d <= / 2)%R /\ ((x + y) * (1 + / 4))%R = ((x + y) * (1 + d))%R) /\
+  (forall x y : R, exists d : R, (Rabs d <= / 2)%R /\ (x * y * (1 + / 4))%R = (x * y * (1 + d))%R).
+Proof. exact std_model_example. Qed.
+
+Theorem dot_forward_error : forall (u : R), (0 <= u <= 1)%R -> forall fadd fsub fmul fdiv : R -> R -> R,
+  (forall x y : R, exists d : R, (Rabs d <= u)%R /\ fadd x y = ((x + y) * (1 + d))%R) ->
+  (forall x y : R, exists d : R, (Rabs d <= u)%R /\ fmul x y = (x * y * (1 + d))%R) ->
+  forall (v w : list R), length v = length w ->
+  exists r : R, dot (A := ARnd fadd fsub fmul fdiv) v w = Ok r /\
+    (Rabs (r - dot_raw (A := AR) v w)
+     <= ((1 + u) ^ (length v + 1) - 1) * dot_raw (A := AR) (map Rabs v) (map Rabs w))%R.
+Proof. intros u Hu fadd fsub fmul fdiv Hadd Hmul v w Hl. exact (dot_forward_error_ex u Hu fadd fsub fmul fdiv Hadd Hmul v w Hl). Qed.
+Check dot_forward_error : forall (u : R), (0 <= u <= 1)%R -> forall fadd fsub fmul fdiv : R -> R -> R,
+  (forall x y : R, exists d : R, (Rabs d <= u)%R /\ fadd x y = ((x + y) * (1 + d))%R) ->
+  (forall x y : R, exists d : R, (Rabs d <= u)%R /\ fmul x y = (x * y * (1 + d))%R) ->
+  forall (v w : list R), length v = length w ->
+  exists r : R, dot (A := ARnd fadd fsub fmul fdiv) v w = Ok r /\
+    (Rabs (r - dot_raw (A := AR) v w)
+     <= ((1 + u) ^ (length v + 1) - 1) * dot_raw (A := AR) (map Rabs v) (map Rabs w))%R.
+Print Assumptions dot_forward_error.
+Print Assumptions audit_separator.
+
+Theorem pardot_vs_dot_reassociation : forall (u : R), (0 <= u <= 1)%R -> forall fadd fsub fmul fdiv : R -> R -> R,
+  (forall x y : R, exists d : R, (Rabs d <= u)%R /\ fadd x y = ((x + y) * (1 + d))%R) ->
+  (forall x y : R, exists d : R, (Rabs d <= u)%R /\ fmul x y = (x * y * (1 + d))%R) ->
+  forall (t : nat) (v w : list R), 1 <= t -> length v = length w ->
+  exists rp rs : R, pardot (A := ARnd fadd fsub fmul fdiv) t v w = Ok rp /\ dot (A := ARnd fadd fsub fmul fdiv) v w = Ok rs /\
+    (Rabs (rp - rs)
+     <= (((1 + u) ^ (length v + t + 1) - 1) + ((1 + u) ^ (length v + 1) - 1)) * dot_raw (A := AR) (map Rabs v) (map Rabs w))%R.
+Proof. intros u Hu fadd fsub fmul fdiv Hadd Hmul t v w Ht Hl. exact (pardot_vs_dot_ex u Hu fadd fsub fmul fdiv Hadd Hmul t v w Ht Hl). Qed.
+Check pardot_vs_dot_reassociation : forall (u : R), (0 <= u <= 1)%R -> forall fadd fsub fmul fdiv : R -> R -> R,
+  (forall x y : R, exists d : R, (Rabs d <= u)%R /\ fadd x y = ((x + y) * (1 + d))%R) ->
+  (forall x y : R, exists d : R, (Rabs d <= u)%R /\ fmul x y = (x * y * (1 + d))%R) ->
+  forall (t : nat) (v w : list R), 1 <= t -> length v = length w ->
+  exists rp rs : R, pardot (A := ARnd fadd fsub fmul fdiv) t v w = Ok rp /\ dot (A := ARnd fadd fsub fmul fdiv) v w = Ok rs /\
+    (Rabs (rp - rs)
+     <= (((1 + u) ^ (length v + t + 1) - 1) + ((1 + u) ^ (length v + 1) - 1)) * dot_raw (A := AR) (map Rabs v) (map Rabs w))%R.
+Print Assumptions pardot_vs_dot_reassociation.
+Print Assumptions audit_separator.
+
+Theorem sched_forward_error : forall (u : R), (0 <= u <= 1)%R -> forall fadd fsub fmul fdiv : R -> R -> R,
+  (forall x y : R, exists d : R, (Rabs d <= u)%R /\ fadd x y = ((x + y) * (1 + d))%R) ->
+  (forall x y : R, exists d : R, (Rabs d <= u)%R /\ fmul x y = (x * y * (1 + d))%R) ->
+  forall (v w : list R) t s0 n s,
+  par_program (A := ARnd fadd fsub fmul fdiv) v w t = Ok s0 ->
+  steps (A := ARnd fadd fsub fmul fdiv) v w t n s0 s -> terminal (A := ARnd fadd fsub fmul fdiv) v w t s ->
+  exists r : R, main s = MRet (A := ARnd fadd fsub fmul fdiv) (Ok r) /\
+    (Rabs (r - dot_raw (A := AR) v w)
+     <= ((1 + u) ^ (length v + t + 1) - 1) * dot_raw (A := AR) (map Rabs v) (map Rabs w))%R.
+Proof.
+  intros u Hu fadd fsub fmul fdiv Hadd Hmul v w t s0 n s HP HS HT.
+  exact (sched_forward_error_ex u Hu fadd fsub fmul fdiv Hadd Hmul v w t s0 n s HP HS HT).
+Qed.
+Check sched_forward_error : forall (u : R), (0 <= u <= 1)%R -> forall fadd fsub fmul fdiv : R -> R -> R,
+  (forall x y : R, exists d : R, (Rabs d <= u)%R /\ fadd x y = ((x + y) * (1 + d))%R) ->
+  (forall x y : R, exists d : R, (Rabs d <= u)%R /\ fmul x y = (x * y * (1 + d))%R) ->
+  forall (v w : list R) t s0 n s,
+  par_program (A := ARnd fadd fsub fmul fdiv) v w t = Ok s0 ->
+  steps (A := ARnd fadd fsub fmul fdiv) v w t n s0 s -> terminal (A := ARnd fadd fsub fmul fdiv) v w t s ->
+  exists r : R, main s = MRet (A := ARnd fadd fsub fmul fdiv) (Ok r) /\
+    (Rabs (r - dot_raw (A := AR) v w)
+     <= ((1 + u) ^ (length v + t + 1) - 1) * dot_raw (A := AR) (map Rabs v) (map Rabs w))%R.
+Print Assumptions sched_forward_error.
 Print Assumptions audit_separator.
